@@ -147,58 +147,91 @@ class PhaseTable:
     pass
 
 
+def one_level(e, defs):
+    """Text of e; a plain temporary (single definition) is replaced once by its definition."""
+    if isinstance(e, ast.Name):
+        d = [x for x in defs.get(e.id, [])]
+        if len(d) == 1 and d[0] is not None and isinstance(d[0], ast.Subscript):
+            return norm(d[0])
+    return norm(e)
+
+
 def phase_table(ctx, f):
-    """The per-read table filled from the TSV:  table[key_col] = Ctor(args...)  -> attr -> tsv column."""
+    """The per-read table filled from the TSV:  table[key] = Ctor(args...)  with key = <row>[0], in the emitter function
+    or in a helper that returns the table.  -> attr -> tsv column, names on both sides."""
+    from ..core import local_defs, resolve_expr
+
     repo = ctx.repo
     t = PhaseTable()
     t.name = None
-    for st in walk_own(f.node):
-        if isinstance(st, ast.Assign) and isinstance(st.targets[0], ast.Subscript) and isinstance(st.targets[0].slice, ast.Subscript):
-            sl = st.targets[0].slice
-            if isinstance(sl.value, ast.Name) and isinstance(const_value(sl.slice), int):
-                t.name = norm(st.targets[0].value)
-                t.store = st
-                t.elems = sl.value.id
-                t.key_col = const_value(sl.slice)
-    if t.name is None:
+    cands = [f] + [h for c in walk_own(f.node) if isinstance(c, ast.Call) for h in [repo.resolve_call(f, c)] if h is not None and h.module is f.module and h is not f and h.name != "__init__"]
+    for g in cands:
+        gd = local_defs(g.node)
+        for st in walk_own(g.node):
+            if isinstance(st, ast.Assign) and isinstance(st.targets[0], ast.Subscript) and isinstance(st.targets[0].value, ast.Name):
+                key = one_level(st.targets[0].slice, gd)
+                mm = re.fullmatch(r"(\w+)\[(\d+)\]", key)
+                if mm and any(isinstance(l, ast.For) and any(x is st for x in ast.walk(l)) for l in walk_own(g.node)):
+                    t.fill_func, t.fill_name, t.store, t.elems, t.key_col, t.key_text = g, st.targets[0].value.id, st, mm.group(1), int(mm.group(2)), norm(st.targets[0].slice)
+                    t.fill_defs = gd
+    if getattr(t, "store", None) is None:
         raise AnalysisError("R20.4", f.where(), "cannot find the per-read table filled from the TSV")
+    g = t.fill_func
+    ctx.analysed_func(g)
+    # name of the table in the emitter function
+    t.name = t.fill_name
+    t.handle_arg = None
+    if g is not f:
+        rets = [r for r in walk_own(g.node) if isinstance(r, ast.Return) and r.value is not None]
+        for st in walk_own(f.node):
+            if isinstance(st, ast.Assign) and isinstance(st.value, ast.Call) and repo.resolve_call(f, st.value) is g and isinstance(st.targets[0], ast.Name) and rets and norm(rets[-1].value) == t.fill_name:
+                t.name = st.targets[0].id
+                t.call = st.value
     # value: a local assigned from a constructor of a program class, or the constructor call itself
     val = t.store.value
     if isinstance(val, ast.Name):
-        d = [s for s in walk_own(f.node) if isinstance(s, ast.Assign) and norm(s.targets[0]) == val.id]
-        val = d[0].value if d else val
+        d = [x for x in t.fill_defs.get(val.id, []) if x is not None]
+        val = d[0] if d else val
     if not isinstance(val, ast.Call):
-        raise AnalysisError("R20.4", f.where(t.store), "per-read entry is not built by a constructor call")
-    ctor = repo.resolve_call(f, val)
+        raise AnalysisError("R20.4", g.where(t.store), "per-read entry is not built by a constructor call")
+    ctor = repo.resolve_call(g, val)
     if ctor is None:
-        raise AnalysisError("R20.4", f.where(t.store), "cannot resolve the entry constructor")
+        raise AnalysisError("R20.4", g.where(t.store), "cannot resolve the entry constructor")
     ctx.analysed_func(ctor)
     params = ctor.params[1:]
     arg_col = {}
     for i, a in enumerate(val.args):
-        if i < len(params) and isinstance(a, ast.Subscript) and norm(a.value) == t.elems:
-            arg_col[params[i]] = const_value(a.slice)
+        a_txt = one_level(a, t.fill_defs)
+        mm = re.fullmatch(rf"{re.escape(t.elems)}\[(\d+)\]", a_txt)
+        if i < len(params) and mm:
+            arg_col[params[i]] = int(mm.group(1))
     for k in val.keywords:
-        if isinstance(k.value, ast.Subscript) and norm(k.value.value) == t.elems:
-            arg_col[k.arg] = const_value(k.value.slice)
+        a_txt = one_level(k.value, t.fill_defs)
+        mm = re.fullmatch(rf"{re.escape(t.elems)}\[(\d+)\]", a_txt)
+        if mm:
+            arg_col[k.arg] = int(mm.group(1))
     t.attr_col = {}
-    for s in walk_own(ctor.node):
-        if isinstance(s, ast.Assign) and isinstance(s.targets[0], ast.Attribute) and isinstance(s.value, ast.Name) and s.value.id in arg_col:
-            t.attr_col[s.targets[0].attr] = arg_col[s.value.id]
-    # the elements are the tab-split TSV line
-    d = [s for s in walk_own(f.node) if isinstance(s, ast.Assign) and norm(s.targets[0]) == t.elems]
-    ok_split = len(d) == 1 and "split('\\t')" in norm(d[0].value)
-    ctx.check(ok_split, "R20.4", f.where(t.store), "TSV rows are split on tabs", key_of(f, "tsv-split"))
-    # insert-if-absent: the store is guarded by `key not in table`, and no other store / attribute update of entries
-    g = guards_of(f.node, t.store)
-    absent = any(canon_test(x, pol) == (f"{t.elems}[{t.key_col}] in {t.name}", False) for x, pol in g)
+    for s_ in walk_own(ctor.node):
+        if isinstance(s_, ast.Assign) and isinstance(s_.targets[0], ast.Attribute) and isinstance(s_.value, ast.Name) and s_.value.id in arg_col:
+            t.attr_col[s_.targets[0].attr] = arg_col[s_.value.id]
+    d = [x for x in t.fill_defs.get(t.elems, []) if x is not None]
+    ok_split = len(d) == 1 and "split('\\t')" in norm(d[0])
+    ctx.check(ok_split, "R20.4", g.where(t.store), "TSV rows are split on tabs", key_of(g, "tsv-split"))
+    gds = guards_of(g.node, t.store)
+    absent = any(canon_test(x, pol) == (f"{t.key_text} in {t.fill_name}", False) for x, pol in gds)
     others = []
-    for s in walk_own(f.node):
-        if isinstance(s, (ast.Assign, ast.AugAssign)):
-            for tg in (s.targets if isinstance(s, ast.Assign) else [s.target]):
-                if s is not t.store and norm(tg).startswith(t.name + "[") :
-                    others.append(norm(s)[:80])
-    ctx.check(absent and not others and t.key_col == 0, "R20.4", f.where(t.store), "the per-read table is keyed by the read name (TSV column 1) and filled insert-if-absent: the first row of a read wins and is never updated", key_of(f, f"first-row-wins:{[norm(x) for x, _ in g]}:{others}"), guards=[(norm(x), pol) for x, pol in g], other_stores=others)
+    for s_ in walk_own(g.node):
+        if isinstance(s_, (ast.Assign, ast.AugAssign)):
+            for tg in (s_.targets if isinstance(s_, ast.Assign) else [s_.target]):
+                if s_ is not t.store and norm(tg).startswith(t.fill_name + "["):
+                    others.append(norm(s_)[:80])
+    if g is not f:
+        for s_ in walk_own(f.node):
+            if isinstance(s_, (ast.Assign, ast.AugAssign)):
+                for tg in (s_.targets if isinstance(s_, ast.Assign) else [s_.target]):
+                    if norm(tg).startswith(t.name + "["):
+                        others.append(norm(s_)[:80])
+    ctx.check(absent and not others and t.key_col == 0, "R20.4", g.where(t.store), "the per-read table is keyed by the read name (TSV column 1) and filled insert-if-absent: the first row of a read wins and is never updated", key_of(g, f"first-row-wins:{[norm(x) for x, _ in gds]}:{others}"), guards=[(norm(x), pol) for x, pol in gds], other_stores=others)
     return t
 
 
@@ -247,7 +280,11 @@ def r20_4_guard(ctx, f, rec, st, out, table):
                 raise Unknown()  # no entry to look at
             return world[1] == tp
         if isinstance(e, ast.Name) and e.id in flags:
-            return flags[e.id]
+            fv = flags[e.id]
+            if isinstance(fv, bool):
+                return fv
+            inner = {k: v for k, v in flags.items() if k != e.id}
+            return ev(fv, world, inner)
         if isinstance(e, ast.UnaryOp) and isinstance(e.op, ast.Not):
             return not ev(e.operand, world, flags)
         if isinstance(e, ast.BoolOp):
@@ -278,7 +315,7 @@ def r20_4_guard(ctx, f, rec, st, out, table):
                 if isinstance(e.node.value, ast.Constant) and isinstance(e.node.value.value, bool):
                     flags[nm] = e.node.value.value
                 else:
-                    flags.pop(nm, None)
+                    flags[nm] = e.node.value  # a flag bound to an expression is evaluated in each world
             if e.kind == "test":
                 keep = []
                 for w in worlds:
@@ -381,18 +418,30 @@ def r20_6(ctx, f, handle):
 
 def r20_7(ctx, f, table):
     """Every TSV row is seen by the table-building loop: the TSV handle is read by that loop only."""
-    loops = [l for l in walk_own(f.node) if isinstance(l, ast.For) and any(x is table.store for x in ast.walk(l))]
+    g = table.fill_func
+    loops = [l for l in walk_own(g.node) if isinstance(l, ast.For) and any(x is table.store for x in ast.walk(l))]
     if not loops:
-        raise AnalysisError("R20.7", f.where(), "the per-read table is not filled in a loop over the TSV")
+        raise AnalysisError("R20.7", g.where(), "the per-read table is not filled in a loop over the TSV")
     l = loops[-1]
-    h = norm(l.iter)
+    h_in = norm(l.iter)
+    h = h_in
+    if g is not f and h_in in g.params and getattr(table, "call", None) is not None:
+        h = norm(table.call.args[g.params.index(h_in)]) if g.params.index(h_in) < len(table.call.args) else h_in
     opened = [s for s in walk_own(f.node) if isinstance(s, ast.Assign) and norm(s.targets[0]) == h and isinstance(s.value, ast.Call) and norm(s.value.func) == "open"]
     others = []
-    for c in walk_own(f.node):
-        if isinstance(c, ast.Call):
-            if isinstance(c.func, ast.Name) and c.func.id in ("next", "list", "iter", "enumerate") and c.args and norm(c.args[0]) == h and not any(x is c for x in ast.walk(l.iter)):
-                others.append(norm(c))
-            if isinstance(c.func, ast.Attribute) and norm(c.func.value) == h and c.func.attr in ("readline", "readlines", "read", "seek", "__next__"):
-                others.append(norm(c))
-    skips = [s for s in l.body if isinstance(s, ast.If) and any(isinstance(x, ast.Continue) for x in ast.walk(s))]
-    ctx.check(bool(opened) and not others and not skips, "R20.7", f.where(l), "every row of the haplotag TSV reaches the per-read table: the TSV handle is consumed by the table loop only, and the loop skips no row", key_of(f, f"tsv-consumers:{others}:{len(skips)}"), other_reads=others)
+    for fn_, hn in ((f, h), (g, h_in)):
+        for c in walk_own(fn_.node):
+            if isinstance(c, ast.Call):
+                if isinstance(c.func, ast.Name) and c.func.id in ("next", "list", "iter", "enumerate") and c.args and norm(c.args[0]) == hn and not any(x is c for x in ast.walk(l.iter)):
+                    others.append(norm(c))
+                if isinstance(c.func, ast.Attribute) and norm(c.func.value) == hn and c.func.attr in ("readline", "readlines", "read", "seek", "__next__"):
+                    others.append(norm(c))
+        if g is f:
+            break
+    # a row may be skipped only because its read is already in the table
+    skips = []
+    for s_ in l.body:
+        if isinstance(s_, ast.If) and any(isinstance(x, ast.Continue) for x in ast.walk(s_)):
+            if canon_test(s_.test, True) != (f"{table.key_text} in {table.fill_name}", True):
+                skips.append(norm(s_.test))
+    ctx.check(bool(opened) and not others and not skips, "R20.7", g.where(l), "every row of the haplotag TSV reaches the per-read table: the TSV handle is consumed by the table loop only, and the loop skips a row only when its read is already listed", key_of(g, f"tsv-consumers:{others}:{skips}"), other_reads=others, skips=skips)
